@@ -357,7 +357,6 @@ func init() {
 	pr("ReadDecimalArrayInt", func(r *vlib.Rand, w *W) { decArr(r, w, true) })
 
 	famSM()
-	famBig()
 
 	if len(families)%2 == 0 {
 		fam("value/gen-shallow2", func(r *vlib.Rand) *enc { return valueEnc(valgen.Gen(r, 1, r.Range(0, 8))) })
@@ -644,8 +643,10 @@ func bigPrim(r *vlib.Rand) *enc {
 	return e
 }
 
-func famBig() {
-	fam("big/pack", bigPack)
-	fam("big/value-step-record", bigValueStepRecord)
-	fam("big/prim", bigPrim)
+// bigFamilies are drawn by the cases behind the regular ones (main.go): case n+j belongs to
+// bigFamilies[j mod 3]; the regular cases 0 … n-1 keep their families (i mod len(families)).
+var bigFamilies = []family{
+	{"big/pack", bigPack},
+	{"big/value-step-record", bigValueStepRecord},
+	{"big/prim", bigPrim},
 }
